@@ -14,6 +14,7 @@ import (
 	"fmt"
 	"math"
 	"os"
+	"regexp"
 	"runtime"
 	"runtime/debug"
 	"sort"
@@ -830,7 +831,11 @@ func c02wExplore(rep *kit.Report, scratch string, p c02wPlan) {
 			// determinism: the failing history is run again, compared in full at every letter
 			e2 := c02wRunHistory(rep, dir, e.vio.replay, 0, false)
 			if e2.vio == nil || e2.vio.kind != e.vio.kind {
-				rep.Violation("wide_not_reproducible", e.vio.key, "first run: "+e.vio.kind+": "+e.vio.detail, e.vio.replay)
+				second := "no violation"
+				if e2.vio != nil {
+					second = e2.vio.kind + " at " + e2.vio.key + ": " + e2.vio.detail
+				}
+				rep.Violation("wide_not_reproducible", e.vio.key, "second run: "+second+" ||| first run: "+e.vio.kind+": "+e.vio.detail, e.vio.replay)
 			} else {
 				rep.Violation(e.vio.kind, e.vio.key, e.vio.detail, e.vio.replay)
 			}
@@ -991,6 +996,15 @@ func c02WideStage(rep *kit.Report, scratch string) {
 		if only != "" && only != p.Name {
 			continue
 		}
+		if rx := kit.Getenv("VERIF_C02_KNOBS", ""); rx != "" { // development aid: only the knob settings matching the regexp
+			var keep []c02wKnobs
+			for _, k := range p.Knobs {
+				if regexp.MustCompile(rx).MatchString(k.String()) {
+					keep = append(keep, k)
+				}
+			}
+			p.Knobs = keep
+		}
 		var ks []string
 		for _, k := range p.Knobs {
 			ks = append(ks, k.String())
@@ -1008,4 +1022,120 @@ func c02WideReplay(rep *kit.Report, scratch string, c c02wCase) {
 	if e.vio != nil {
 		rep.Violation(e.vio.kind, e.vio.key, e.vio.detail, e.vio.replay)
 	}
+}
+
+// ---- legal-configuration witnesses (by data volume) -------------------------------------------
+
+// c02WideVolume re-creates, with nothing but values the product configuration can take (max-rows-per-segment = 8,
+// everything else default: 65535 segments per chunk, compaction method auto, full compaction as the entry point), the
+// two situations the small segment limit of the wide stage reaches with a handful of rows: one series whose
+// segments in the files of one compaction exceed 65535. Not part of the check (VERIF_C02_VOLUME=lost|panic, run the
+// test binary by hand); the result is printed.
+func c02WideVolume(t interface{ Logf(string, ...any) }, scratch, which string) {
+	c02wKnobs{}.apply() // rows per segment 8, all other knobs default
+	c02wInstallTap()
+	dir := vMkdir(scratch, "volume")
+	v, err := vOpenShard(dir)
+	if err != nil {
+		t.Logf("open: %v", err)
+		return
+	}
+	defer v.Close()
+	next := 1
+	write := func(host, rows int, fields string) {
+		for rows > 0 {
+			n := rows
+			if n > 20000 {
+				n = 20000
+			}
+			pts := make([]vPoint, 0, n)
+			for k := 0; k < n; k++ {
+				p := vPoint{vKey{c02wMst, c02wHosts[host], vT(next)}, map[string]vVal{}}
+				for _, f := range fields {
+					switch f {
+					case 'f':
+						p.V["f"] = vVal{Typ: influx.Field_Type_Float, F: float64(next)}
+					case 's':
+						p.V["s"] = vVal{Typ: influx.Field_Type_String, S: "x"}
+					}
+				}
+				pts = append(pts, p)
+				next++
+			}
+			if err := v.Write(pts); err != nil {
+				t.Logf("write: %v", err)
+			}
+			rows -= n
+		}
+	}
+	count := func(host int) (rows int, bad int) {
+		q := c02wQuery{vQuery{Mst: c02wMst, Fields: vFields[:1], Ascending: true, Start: influxql.MinTime, End: influxql.MaxTime}, 1000}
+		var opt query.ProcessorOptions
+		opt.Name, opt.Dimensions, opt.Ascending, opt.FieldAux, opt.MaxParallel, opt.ChunkSize = q.Mst, []string{"host"}, true, q.Fields, 1, 1000
+		opt.StartTime, opt.EndTime = q.Start, q.End
+		schema := genQuerySchema(q.Fields, &opt)
+		_, span := tracing.NewTrace("root")
+		info, err := v.sh.CreateCursor(tracing.NewContextWithSpan(context.Background(), span), schema)
+		if err != nil || info == nil {
+			t.Logf("cursor: %v", err)
+			return
+		}
+		defer info.Unref()
+		for _, cur := range info.GetCursors() {
+			if gc, ok := cur.(*groupCursor); ok {
+				gc.preAgg = true
+				SetNextMethod(cur)
+			}
+			for {
+				rec, _, err := cur.Next()
+				if err != nil {
+					t.Logf("next: %v", err)
+					break
+				}
+				if rec == nil {
+					break
+				}
+				times := rec.Times()
+				for r := 0; r < rec.RowNums(); r++ {
+					rows++
+					f, isNil := rec.Column(0).FloatValue(r)
+					if isNil || int64(f) != (times[r]-vBase)/int64(time.Second) {
+						bad++
+					}
+				}
+			}
+			_ = cur.Close()
+		}
+		return
+	}
+	total := 0
+	switch which {
+	case "lost":
+		for _, segs := range []int{40000, 40000, 100} {
+			write(1, segs*8, "f")
+			v.Flush()
+			total += segs * 8
+		}
+	case "panic":
+		write(0, 65535*8-4, "fs")
+		v.Flush()
+		write(0, 8, "f")
+		v.Flush()
+		total = 65535*8 - 4 + 8
+	}
+	l0, _ := v.c02wLayout()
+	r0, b0 := count(map[string]int{"lost": 1, "panic": 0}[which])
+	t.Logf("VOLUME %s: before full compaction: %d ordered files, max segments per chunk %d, rows read %d (written %d), wrong values %d", which, l0.NOrder, l0.MaxSegs, r0, total, b0)
+	ce0, _ := c02wErrCounters()
+	c02wTap.take()
+	err = v.FullCompact()
+	ce1, _ := c02wErrCounters()
+	logs := strings.Join(c02wTap.take(), " || ")
+	if len(logs) > 1200 {
+		logs = logs[:1200]
+	}
+	l1, _ := v.c02wLayout()
+	r1, b1 := count(map[string]int{"lost": 1, "panic": 0}[which])
+	t.Logf("VOLUME %s: after full compaction (err=%v, compaction errors +%d): %d ordered files, max segments per chunk %d, rows read %d (written %d), wrong values %d; error log: %s",
+		which, err, ce1-ce0, l1.NOrder, l1.MaxSegs, r1, total, b1, logs)
 }
